@@ -30,11 +30,11 @@ func main() {
 	defer smt.Cleanup()
 	switch os.Args[1] {
 	case "check":
-		os.Exit(cmdCheck(os.Args[2:]))
+		exit(cmdCheck(os.Args[2:]))
 	case "verify":
-		os.Exit(cmdVerify(os.Args[2:]))
+		exit(cmdVerify(os.Args[2:]))
 	case "list":
-		os.Exit(cmdList())
+		exit(cmdList())
 	case "gen":
 		L, err := Load()
 		if L != nil {
@@ -47,7 +47,7 @@ func main() {
 			os.Exit(2)
 		}
 	case "replay":
-		os.Exit(cmdReplay(os.Args[2:]))
+		exit(cmdReplay(os.Args[2:]))
 	default:
 		usage()
 	}
@@ -228,4 +228,10 @@ func modelString(rep *vc.FuncReport, ob *vc.Obligation) string {
 		}
 	}
 	return strings.Join(parts, " ")
+}
+
+// exit removes the scratch directory of the SMT scripts before leaving (os.Exit skips deferred calls).
+func exit(code int) {
+	smt.Cleanup()
+	os.Exit(code)
 }
